@@ -21,25 +21,36 @@ RULE = ('histories over {load, forced load, enforce, edit file} x enforcer index
         'bound for two enforcers (one with enforce_new_defaults off, one on); R = random interleavings of 5-30 steps over '
         '1-3 enforcers with random option values and file contents, with or without a policy directory (edited too) and with or without a main file (which may be deleted); shared defaults with and without deprecated '
         'predecessors (renamed, same-name with changed default, plain). Non-trivial = the history has at least two loads '
-        'of one enforcer or involves two enforcers; distinct = distinct (configuration, history). Stratum `overlap`: two new enforcers registered with the SAME default objects (own files, opposite enforce_new_defaults) perform their first load at the same time, each on its own thread (second one runs at sampled line boundaries of the first, and both in flight): each decides as after a single load, the shared objects are unchanged.')
+        'of one enforcer or involves two enforcers; distinct = distinct (configuration, history). Stratum `overlap`: two new enforcers registered with the SAME default objects (own files, opposite enforce_new_defaults) perform their first load at the same time, each on its own thread (second one runs at sampled line boundaries of the first, and both in flight): each decides as after a single load, the shared objects are unchanged. Stratum `H1` (faults, exhaustive): ONE enforcer, every history up to the length bound over {load, forced load, enforce, edit, remove the main file, write unparseable content to the main file} that contains a removal or an unparseable write and ends with parseable files (a later edit re-creates / repairs the file); the comparison with a fresh enforcer happens only after the last step, so that the enforcement calls of the comparison itself do not load in between (every prefix is a history of its own). Stratum `F` (faults, random): 1-2 enforcers, random histories over the same operations plus policy-directory edits / unparseable policy-directory files, with fault-then-load-then-repair sequences inserted, every unparseable write repaired later in the history, compared after every step or only after a random subset of steps. While the current files of an enforcer are unparseable (a fresh enforcer raises too) nothing is judged for it (counted as unconstrained.policy-file-unparseable; the statement does not say what a long-lived enforcer does meanwhile); as soon as they are valid again the implicit, explicit and forced loads must all agree with a fresh enforcer.')
 ASSUMPTIONS = ['sharing of sub-objects between registered copies is not alteration: the statement is behavioural, so only '
                'observable attributes (names, check strings, printed checks, tree shape, deprecated fields, scope types) are snapshotted',
                'logical clock on every edit (file and directory)']
 LEVEL_TEXT = ('All interleavings up to length 3 (thorough: 4) for two enforcers plus seeded random longer ones over up to '
-              'three; comparisons after every step. Interleavings are unbounded, so bounded-exhaustive plus sampling is the level.')
+              'three; comparisons after every step. Interleavings are unbounded, so bounded-exhaustive plus sampling is the level. '
+              'Histories with faults (main file removed / momentarily unparseable): all of them up to length 4 (thorough: 5) for one enforcer, compared after '
+              'the last step, plus random ones over one or two enforcers compared after every step or after a random subset of steps.')
 LEVEL_NOTE = 'trusted: a fresh Enforcer with re-constructed defaults as the oracle of "loaded once"; the attribute snapshot function'
 PLAN = {'quick': dict(shards=8, wall=150), 'thorough': dict(shards=16, wall=500)}
-MIN = {'overlapping_evaluations': 200, 'evaluations': 300, 'steps_compared': 1500, 'snapshots_compared': 1500, 'forced_reloads': 200, 'merged_or_checks_seen': 100}
+MIN = {'overlapping_evaluations': 200, 'evaluations': 300, 'steps_compared': 1500, 'snapshots_compared': 1500, 'forced_reloads': 200, 'merged_or_checks_seen': 100,
+       'cases.H1': 300, 'cases.F': 30, 'forced_reloads_after_removal': 60, 'loads_raising_while_unparseable': 100, 'recoveries_judged': 100}
 ANCHORS = ['oslo_policy.policy:Enforcer.register_default', 'oslo_policy.policy:Enforcer._handle_deprecated_rule',
            'oslo_policy.policy:Enforcer.load_rules', 'oslo_policy.policy:Enforcer.enforce']
 REQUIRED_ANCHORS = ['oslo_policy.policy:Enforcer.load_rules']
-BOUNDS = {'quick': dict(L=3, nR=200), 'thorough': dict(L=4, nR=30000)}
+BOUNDS = {'quick': dict(L=3, nR=200, L1=4, nF=96), 'thorough': dict(L=4, nR=30000, L1=5, nF=5000)}
 
 NAMES = ['new', 'old', 'same', 'plain', 'zz', 'helper']
 ROLES = ['x', 'y', 'z', 'n', 'o', 'p', 'q', 'm']
 ROLESETS = [[r] for r in ROLES] + [['n', 'p'], ['o', 'm'], ['p', 'q'], []]
 OPS = ['load', 'force', 'enforce', 'edit']
 OPS_R = ['load', 'force', 'enforce', 'edit', 'editdir', 'editdir', 'rmmain']
+# fault strata: removal of the main file and unparseable content (every one of these makes a fresh enforcer's load raise)
+OPS_H1 = ['load', 'force', 'enforce', 'edit', 'rmmain', 'break']
+OPS_F = ['load', 'load', 'force', 'force', 'force', 'enforce', 'enforce', 'edit', 'edit', 'editdir', 'rmmain', 'rmmain', 'break', 'break', 'breakdir']
+BROKEN = ['{"a": [', ': : :', '- just\n- a list\n', 'just text', '\tnew: role:x\n', '{"new": "role:x"', 'new: role:x\n  old: role:y\n', '42']
+# a fault, then some flavour of load while it lasts, then (mostly) the repair
+MOTIFS = [['rmmain', 'force'], ['rmmain', 'force', 'load'], ['rmmain', 'force', 'edit'], ['rmmain', 'enforce', 'force'], ['break', 'enforce', 'edit'],
+          ['break', 'load', 'edit'], ['break', 'force', 'edit', 'enforce'], ['break', 'enforce', 'rmmain', 'force'], ['breakdir', 'enforce', 'editdir'],
+          ['breakdir', 'force', 'editdir'], ['break', 'enforce', 'enforce', 'edit', 'enforce']]
 CONTENTS = [{}, {'new': 'role:x'}, {'old': 'role:y'}, {'same': 'role:z', 'plain': 'role:x'}, {'old': 'rule:new'},
             {'extra': 'role:x', 'old': 'role:z', 'new': 'role:y'}, {'helper': 'role:x'}, {'helper': 'role:y', 'new': 'role:z'},
             {'helper': 'role:z'}]
@@ -117,36 +128,94 @@ def run_history(ctx, case):
             dirs = [tree.path('pd')] if with_dir else []
             enf = policy.Enforcer(tree.conf(policy_dirs=dirs, enforce_new_defaults=cfg_['flag']))
             enf.register_defaults(shared)
-            worlds.append(dict(tree=tree, enf=enf, flag=cfg_['flag'], last=None, dirs=dirs))
+            worlds.append(dict(tree=tree, enf=enf, flag=cfg_['flag'], last=None, dirs=dirs, broken=set(), was_broken=False, touched=False,
+                               had_main=cfg_['initial'] is not None))
+
+        def fresh_exception(ww):
+            """Name of the exception a fresh enforcer's first load raises for ww's current files (None: it loads)."""
+            f = policy.Enforcer(ww['tree'].conf(policy_dirs=ww['dirs'], enforce_new_defaults=ww['flag']))
+            f.register_defaults(make_defaults(policy, case['with_dep'], case.get('dshape', 0)))
+            try:
+                f.load_rules()
+            except Exception as e:
+                return type(e).__name__
+            return None
+
+        # steps after which the enforcers are compared with fresh ones (None: after every step).  The comparison itself enforces,
+        # i.e. loads implicitly; histories in which NO load happens between two operations need it switched off in between.
+        judge = case.get('judge')
+        judge = None if judge is None else set(judge)
         for i, (op, who, arg) in enumerate(case['history']):
             w = worlds[who % len(worlds)]
+            w['touched'] = True
             edited = False
             try:
                 if op == 'load':
                     w['enf'].load_rules()
                 elif op == 'force':
-                    w['enf'].load_rules(force_reload=True)
                     ctx.count('forced_reloads')
+                    if w['had_main'] and not w['dirs'] and not w['tree'].exists('policy.yaml'):
+                        ctx.count('forced_reloads_after_removal')
+                    w['enf'].load_rules(force_reload=True)
                 elif op == 'enforce':
                     w['enf'].enforce(NAMES[arg % len(NAMES)], {}, {'roles': [ROLES[arg % len(ROLES)]]})
                 elif op == 'editdir':
                     if w['dirs']:
                         w['tree'].write('pd/o.yaml', CONTENTS[arg % len(CONTENTS)], 'json')
+                        w['broken'].discard('pd/o.yaml')
                 elif op == 'rmmain':
                     w['tree'].delete('policy.yaml')
+                    w['broken'].discard('policy.yaml')
+                elif op == 'break':
+                    # the main file momentarily holds something that is not a policy mapping (half-written, wrong file copied, ...)
+                    w['tree'].write_text('policy.yaml', BROKEN[arg % len(BROKEN)])
+                    w['broken'].add('policy.yaml')
+                    w['was_broken'] = w['had_main'] = True
+                elif op == 'breakdir':
+                    if w['dirs']:
+                        w['tree'].write_text('pd/o.yaml', BROKEN[arg % len(BROKEN)])
+                        w['broken'].add('pd/o.yaml')
+                        w['was_broken'] = True
                 else:
                     w['tree'].write('policy.yaml', CONTENTS[arg % len(CONTENTS)], 'json' if arg % 2 else 'yaml-lines')
+                    w['broken'].discard('policy.yaml')
+                    w['had_main'] = True
                     edited = True
             except Exception as e:
-                ctx.violation('operation-raises', case, {'step': i, 'op': [op, who, arg], 'observed': type(e).__name__ + ': ' + str(e)[:80]})
-                return
+                fe = fresh_exception(w) if w['broken'] else None
+                if fe is None:
+                    ctx.violation('operation-raises', case, {'step': i, 'op': [op, who, arg], 'observed': type(e).__name__ + ': ' + str(e)[:80]})
+                    return
+                # the enforcer's files are unparseable right now and a fresh enforcer raises as well: the statement does not say
+                # what a load does meanwhile (raise, keep the previous policy, ...)
+                ctx.count('loads_raising_while_unparseable')
+                if type(e).__name__ != fe:
+                    ctx.observe('exception-while-unparseable-differs-from-fresh', (op, type(e).__name__, fe))
             ctx.count('snapshots_compared')
             if snap(shared) != s0:
                 now = snap(shared)
                 changed = [(a[0], [x for x, y in zip(a, b) if x != y][:2]) for a, b in zip(now, s0) if a != b]
                 ctx.violation('caller-owned-default-mutated', case, {'step': i, 'op': [op, who, arg], 'changed': changed})
                 return
+            if judge is not None and i not in judge:
+                continue
             for wi, ww in enumerate(worlds):
+                touched, ww['touched'] = ww['touched'], False
+                if ww['broken']:
+                    fe = fresh_exception(ww)
+                    if fe is not None:
+                        # nothing is judged while the current files cannot be parsed; the enforcement calls still happen (implicit loads
+                        # during the fault are part of the history)
+                        ctx.unconstrained('policy-file-unparseable')
+                        got = decisions(ww['enf'])
+                        odd = sorted({v for v in got.values() if isinstance(v, str) and v != 'EXC:' + fe})
+                        if odd:
+                            ctx.observe('exception-while-unparseable-differs-from-fresh', ('decide', ','.join(odd), fe))
+                        if any(v == 'EXC:' + fe for v in got.values()):
+                            ctx.count('loads_raising_while_unparseable')
+                        continue
+                if ww['was_broken']:
+                    ctx.count('recoveries_judged')
                 got = decisions(ww['enf'])
                 fresh = policy.Enforcer(ww['tree'].conf(policy_dirs=ww['dirs'], enforce_new_defaults=ww['flag']))
                 fresh.register_defaults(make_defaults(policy, case['with_dep'], case.get('dshape', 0)))
@@ -157,7 +226,10 @@ def run_history(ctx, case):
                     ctx.count('merged_or_checks_seen')
                 if got != want:
                     diff = {k: [got[k], want[k]] for k in got if got[k] != want[k]}
-                    key = 'enforcers-influence-each-other' if (wi != who % len(worlds)) else 'repeated-load-changes-decisions'
+                    if judge is None:
+                        key = 'enforcers-influence-each-other' if (wi != who % len(worlds)) else 'repeated-load-changes-decisions'
+                    else:
+                        key = 'repeated-load-changes-decisions' if touched else 'enforcers-influence-each-other'
                     ctx.violation(key, case, {'step': i, 'op': [op, who, arg], 'enforcer': wi, 'k_loads_vs_one_load': dict(list(diff.items())[:6])})
                     return
                 if pg != pw:
@@ -228,6 +300,44 @@ def check_overlap(ctx, case):
             t.cleanup()
 
 
+def ends_parseable(ops):
+    """Does a history over OPS_H1 (one enforcer) contain a fault and leave a parseable main file behind?"""
+    broken = fault = False
+    for op in ops:
+        if op == 'break':
+            broken = fault = True
+        elif op == 'rmmain':
+            broken, fault = False, True
+        elif op == 'edit':
+            broken = False
+    return fault and not broken
+
+
+def fault_case(r, tag):
+    """Random history with faults (stratum F): removals and unparseable writes, each unparseable write repaired later on."""
+    k = r.randint(1, 2)
+    enforcers = [dict(flag=r.random() < 0.5, initial=r.choice([None, 1, 2, 3, 4, 5, 7]), with_dir=r.random() < 0.3,
+                      dir_initial=r.choice([None, 1, 2, 3, 5])) for _ in range(k)]
+    hist = [[r.choice(OPS_F), r.randrange(k), r.randrange(40)] for _ in range(r.randint(3, 9))]
+    for _ in range(r.randint(1, 2)):
+        who, pos = r.randrange(k), r.randint(1, len(hist))
+        hist[pos:pos] = [[op, who, r.randrange(40)] for op in r.choice(MOTIFS)]
+    # whatever is still unparseable at the end is repaired by a closing edit
+    pending = {}
+    for op, who, _ in hist:
+        if op == 'break' or (op == 'breakdir' and enforcers[who]['with_dir']):
+            pending[(who, op)] = True
+        elif op in ('edit', 'rmmain'):
+            pending.pop((who, 'break'), None)
+        elif op == 'editdir':
+            pending.pop((who, 'breakdir'), None)
+    for who, op in sorted(pending):
+        hist.append(['edit' if op == 'break' else 'editdir', who, r.randrange(40)])
+    n = len(hist)
+    judge = None if r.random() < 0.35 else sorted({i for i in range(n) if r.random() < 0.3} | {n - 1})
+    return dict(s='F', with_dep=r.random() < 0.8, dshape=r.randrange(24), enforcers=enforcers, history=hist, judge=judge, tag=tag)
+
+
 def run(ctx):
     contracts.load_rules_keeps_defaults()
     ctx.reserve(0.8)
@@ -256,7 +366,36 @@ def run(ctx):
         if not done:
             break
     ctx.stratum('H', exhaustive=done)
+    # H1: one enforcer, the alphabet with faults (removal of the main file, unparseable main file), compared after the last step only
+    idx1 = 0
+    done1 = True
+    hn = 0
+    for L in range(2, b['L1'] + 1):
+        for hist in itertools.product(OPS_H1, repeat=L):
+            if not ends_parseable(hist):
+                continue
+            hn += 1             # running number of the histories kept (not correlated with the last operation)
+            for with_dep in (True, False):
+                idx1 += 1
+                if not ctx.mine(idx1):
+                    continue
+                if ctx.expired():
+                    done1 = False
+                    break
+                case = dict(s='H1', with_dep=with_dep, dshape=(hn * 5 + L) % 24, judge=[L - 1],
+                            history=[[op, 0, (hn + j) % 7 if op != 'break' else hn + j] for j, op in enumerate(hist)],
+                            enforcers=[dict(flag=bool((hn // 2 + L) % 2), initial=[1, 2, 4, 5, 3, None, 7, 8][(hn + L) % 8],
+                                            with_dir=bool(hn % 6 == 5), dir_initial=[2, 1, None][(hn // 6) % 3])])
+                run_history(ctx, case)
+                if idx1 % 300 == 0:
+                    ctx.sample(case, 'H1')
+            if not done1:
+                break
+        if not done1:
+            break
+    ctx.stratum('H1', exhaustive=done1)
     rnd = ctx.rnd
+    every_f = max(1, b['nR'] // b['nF'])
     for i in range(b['nR'] // ctx.nshards + 1):
         if ctx.expired():
             break
@@ -268,7 +407,15 @@ def run(ctx):
         run_history(ctx, case)
         if i % 20 == 0:
             ctx.sample(dict(case, history=case['history'][:8] + ['...']), 'R')
+        # stratum F rides along (own random stream), so that a budget cut - R is budget-bound in the thorough tier - shortens both alike
+        if i % every_f == 0:
+            tag = '%s.%d.%d' % (ctx.tier, ctx.shard, i // every_f)
+            case = fault_case(ctx.sub_rnd('F', tag), tag)
+            run_history(ctx, case)
+            if i % (10 * every_f) == 0:
+                ctx.sample(case, 'F')
     ctx.stratum('R', exhaustive=False)
+    ctx.stratum('F', exhaustive=False)
     ctx.release()
     # two enforcers loading at the same time, last (the line-level scheduler slows everything that runs after it is installed)
     from pv.mon import sched
